@@ -731,7 +731,9 @@ def r41(ctx: Ctx) -> RuleReport:
                 rep.violation(key, f.loc(n), f'every role token that starts with "^" loses it - also the role of the first conjunct and a role that follows a free-standing "^": '
                               f'a role whose own name begins with "^" (format_triples writes `^scope(a, b)` for `:^scope`) comes back without it')
     gi = ctx.repo.func('penman.graph', 'Graph.__init__')
-    uses = any(isinstance(n, ast.Call) and isinstance(n.func, ast.Name) and n.func.id == '_ensure_colon'
+    from .graphq import _colon_helpers
+    _ch = _colon_helpers(ctx)
+    uses = any(isinstance(n, ast.Call) and isinstance(n.func, ast.Name) and n.func.id in _ch
                for n in walk_local(gi.node))
     rep.oblige('Graph.__init__ normalises roles through _ensure_colon', uses, '', gi.loc(), key='Graph normalises colon')
     return rep
